@@ -1013,6 +1013,10 @@ def plan(prop, tier, seed, known):
             jobs.append(crash_job("crashscript%d" % i, i, "script", 1, 0, av, disk=3200,
                                   extra=["-loss", "2" if q else "6", "-cont", "2", "-nested", "1" if q else "4", "-unst", "1"]))
         jobs.append(crash_job("crashscript5", 5, "script", 1, 0, av, disk=3200, extra=["-loss", "1", "-cont", "0", "-nested", "0", "-stride", "5" if q else "2", "-unst", "1"]))
+        # large requests while the in-memory log is nearly full of UNSTABLE data (the journal flushes in the middle of appending)
+        for i in (6, 7):
+            jobs.append(crash_job("crashscript%d" % i, i, "script", 1, 0, av, disk=4000,
+                                  extra=["-loss", "1", "-cont", "1", "-nested", "0", "-stride", "40" if q else "7", "-unst", "1"]))
         for i in range(2 if q else 12):
             jobs.append(crash_job("crashbig%d" % i, seed * 100 + 50 + i, "crashbig", 1, 12 if q else 20, av, disk=3400,
                                   extra=["-loss", "1", "-cont", "2", "-nested", "1", "-stride", "3" if q else "1"]))
@@ -1040,6 +1044,7 @@ def plan(prop, tier, seed, known):
         jobs.append(crash_job("crashscript2off", 2, "script", 1, 0, av, disk=3200, extra=["-loss", "2", "-cont", "1", "-nested", "0", "-unst", "0"]))
         jobs.append(crash_job("crashscript4", 4, "script", 1, 0, av, disk=3200, extra=["-loss", "2" if q else "6", "-cont", "2", "-nested", "1", "-unst", "1"]))
         jobs.append(crash_job("crashscript5", 5, "script", 1, 0, av, disk=3200, extra=["-loss", "1", "-cont", "0", "-nested", "0", "-stride", "3" if q else "1", "-unst", "1"]))
+        jobs.append(crash_job("crashscript6", 6, "script", 1, 0, av, disk=4000, extra=["-loss", "1", "-cont", "1", "-nested", "0", "-stride", "40" if q else "7", "-unst", "1"]))
         jobs += commitwin_jobs(q, ["C07", "C01"])
         # what "stable" waits for: its own position, never the shared field that a refused transaction resets (script 4 and the
         # commit windows with a refused request exercise the same on the real code)
@@ -1209,6 +1214,8 @@ def run_check(prop, tier, seed):
     known = load_known()
     build()
     jobs = plan(prop, tier, seed, known)
+    if os.environ.get("VERIF_ONLY"):   # development only (never set by a registered command): the jobs whose name matches
+        jobs = [j for j in jobs if re.search(os.environ["VERIF_ONLY"], j["name"])]
     jobs_also = {j["name"]: j.get("also", []) for j in jobs}
     res = run_jobs(jobs)
     nviol = 0
